@@ -147,6 +147,8 @@ impl Method for PhoneticMethod {
                 self.suggestion.user_autocorrect =
                     serde_json::from_slice(&read(&mut file)).unwrap_or_default();
                 self.modified = modified;
+                // The cached suggestions may contain the old entries.
+                self.suggestion.cache.clear();
             }
         }
     }
